@@ -8,6 +8,7 @@ import (
 
 func TestReplay(t *testing.T) {
 	verif.ReplayMain(map[string]func(){
+		"HarnessConcurrentSameMethod": HarnessConcurrentSameMethod,
 		"HarnessFailingNotifications": HarnessFailingNotifications,
 		"HarnessFaults":               HarnessFaults,
 		"HarnessHTTPAtMostOnce":       HarnessHTTPAtMostOnce,
